@@ -14,6 +14,7 @@ import PyFatModel.Model.Names
 import PyFatModel.Model.FatIO
 import PyFatModel.Model.Crash
 import PyFatModel.Model.Fs
+import PyFatModel.Model.FsCheck
 
 open Model Model.Hex
 
@@ -431,6 +432,12 @@ def fsCmd (st : DState) (args : List String) : DState × String :=
       let sh := fun (l : Fs.Spec) => joinOr (l.map fun e => s!"{showNatList e.path}/{if e.isDir then 1 else 0}/{e.size}")
       (st, "ok abs=" ++ sh (Fs.abs s) ++ " spec=" ++ sh t)
     | none => (st, "bad-op")
+  | ["check", count] =>
+    match st.fs, count.toNat? with
+    | some (v, s, _), some count =>
+      let bad := Fs.checkInv v count s
+      (st, if bad.isEmpty then "ok" else "violated " ++ ",".intercalate bad)
+    | _, _ => (st, "bad-op")
   | ["dump"] =>
     match st.fs with
     | some (_, s, _) => (st, fsDump s)
